@@ -16,6 +16,7 @@ import (
 
 // Eval evaluates contract expressions over a symbolic state.
 type Eval struct {
+	quiet *bool // when set, evaluation errors set the flag instead of being reported (witness hints)
 	f     *FuncVC
 	st    *State            // state in which heap reads happen
 	old   *State            // state for old(...)
@@ -66,6 +67,10 @@ func (ev *Eval) unpolar() *Eval {
 }
 
 func (ev *Eval) fail(format string, args ...interface{}) {
+	if ev.quiet != nil {
+		*ev.quiet = true // a witness hint that cannot be evaluated here is dropped, not an error
+		return
+	}
 	msg := fmt.Sprintf(format, args...)
 	ev.errs = append(ev.errs, msg)
 	ev.f.unsup("contract: " + msg)
@@ -1016,8 +1021,14 @@ func (ev *Eval) callExpr(x *ast.CallExpr) *Val {
 		// hint(k, e): e is a witness candidate for the exists-bound variable k
 		if id, ok := x.Args[0].(*ast.Ident); ok && len(x.Args) == 2 && ev.hints != nil {
 			if bv, ok := ev.bound[id.Name]; ok {
-				w := ev.eval(x.Args[1])
-				if w != nil && w.K == KInt {
+				// a hint may mention a local that is not live at every place where
+				// the clause is checked (e.g. the key of the current iteration, at
+				// loop entry): such a candidate is simply not offered there
+				failed := false
+				sub := ev.sub()
+				sub.quiet = &failed
+				w := sub.eval(x.Args[1])
+				if !failed && w != nil && w.K == KInt {
 					ev.hints[bv.T] = append(ev.hints[bv.T], w.T)
 				}
 			}
